@@ -125,6 +125,12 @@ def drv (args : List String) : String :=
     match unhex accept with
     | some a => "ok " ++ hex (Px.Resp.wsHandshakeResponse a)
     | none => "bad-op"
+  | ["cat", pkts] =>
+    -- what a client must receive when the packets queued for it are flushed, in whatever pieces
+    -- `send` accepts them: their concatenation, each byte once and in order
+    match parseBL pkts with
+    | some l => "ok " ++ hex l.flatten
+    | none => "bad-op"
   | ["wf", ctx, raw] =>
     match unhex raw with
     | some raw => s!"wf={b01 (Wf.WF_response (ctxOf ctx) raw)}"
